@@ -5,6 +5,7 @@ package main
 //   lr <enc> <host> <user> <pw> <hostproc> <app> <serv> <lang> <charset>   (values hex)
 //        -> `ok <hex of the login record>` | `err`      real LoginConfig.pack vs the Lean interpreter of the
 //           regenerated layout (Gen/LoginLayout.lean)
+//   lwc <n> <rounds>                                    (oracle only) n encrypted logins at the same time: session keys fresh
 //   lw <enc> <pwhex> <nremote> <noncelen> <userhex>     (oracle only, no model)
 //        -> `ok …` | violated clause: a full Login against the scripted peer; everything the client wrote
 //           and every error text is searched for the secrets, the ciphertexts are decrypted with the
@@ -20,6 +21,7 @@ import (
 	mrand "math/rand"
 	"strconv"
 	"strings"
+	"sync"
 	"time"
 
 	"github.com/SAP/go-dblib/tds"
@@ -378,6 +380,94 @@ func lwImpl(f []string) string {
 	return "ok encrypted"
 }
 
+// lwcImpl: <n> logins with password encryption at the same time, <rounds> times, each over its own
+// connection against the scripted peer: every session key that arrives is 32 bytes behind the nonce and
+// shares no 8-byte block with the key of any other login (fresh per login, whatever the interleaving).
+func lwcImpl(f []string) string {
+	if len(f) != 2 {
+		return "bad-op"
+	}
+	n, e1 := strconv.Atoi(f[0])
+	rounds, e2 := strconv.Atoi(f[1])
+	if e1 != nil || e2 != nil || n < 1 || n > 64 {
+		return "bad-op"
+	}
+	key, pemKey := testKeyN(n + rounds)
+	one := func(id int) ([]byte, string) {
+		mc := newMemConn()
+		info := testInfo()
+		info.Host = "dbhost"
+		info.Username = "sa"
+		info.Password = fmt.Sprintf("Secret-%d-pw", id)
+		conn, err := tds.VerifNewConn(context.Background(), mc, info, true)
+		if err != nil {
+			return nil, "setup"
+		}
+		defer conn.VerifCancel()
+		ch, _ := conn.NewChannel()
+		cfg, _ := tds.NewLoginConfig(info)
+		cfg.Encrypt = 35
+		nonce := genBytes(16, id)
+		m1 := append(wLoginAck(7, "ASE"), wMsg(1, 35)...)
+		m1 = append(m1, wParamFmt([]wFmt{{datatype: 0x38}, {datatype: 0xE1, fmtBytes: le32(0x7fffffff)}, {datatype: 0xE1, fmtBytes: le32(0x7fffffff)}})...)
+		m1 = append(m1, wParams(0xD7, [][]byte{le32(1), append(le32(len(pemKey)), pemKey...), append(le32(len(nonce)), nonce...)})...)
+		m1 = append(m1, wDone(0xFD, 0, 0, 0)...)
+		mc.feed(packetize(m1, nil, 4, 0))
+		req := make([]byte, 14)
+		req[13] = 2
+		res := make([]byte, 7)
+		res[6] = 2
+		m2 := append(wLoginAck(5, "ASE"), wCapability(map[byte][]byte{1: req, 2: res})...)
+		m2 = append(m2, wDone(0xFD, 0, 0, 0)...)
+		mc.feed(packetize(m2, nil, 4, 0))
+		ctx, cancel := context.WithTimeout(context.Background(), 3*time.Second)
+		defer cancel()
+		if err := ch.Login(ctx, cfg); err != nil {
+			return nil, "valid negotiation must succeed: " + clip(err.Error(), 100)
+		}
+		msgs := bodiesOf(mc.written())
+		if len(msgs) != 2 {
+			return nil, "the client sends the login record and the password message"
+		}
+		pkgs, ok := parseClientPackages(msgs[1])
+		if !ok || len(pkgs) < 3 || len(pkgs[len(pkgs)-1].fields) != 1 {
+			return nil, "the password message consists of MSG/PARAMFMT/PARAMS packages"
+		}
+		p, err := rsa.DecryptOAEP(sha1.New(), nil, key, pkgs[len(pkgs)-1].fields[0], []byte{})
+		if err != nil || len(p) != len(nonce)+32 || !bytes.Equal(p[:len(nonce)], nonce) {
+			return nil, "the session key ciphertext decrypts to nonce || 32 key bytes"
+		}
+		return p[len(nonce):], ""
+	}
+	for r := 0; r < rounds; r++ {
+		keys := make([][]byte, n)
+		errs := make([]string, n)
+		var wg sync.WaitGroup
+		for i := 0; i < n; i++ {
+			wg.Add(1)
+			go func(i int) {
+				defer wg.Done()
+				keys[i], errs[i] = one(r*100 + i)
+			}(i)
+		}
+		wg.Wait()
+		seen := map[string]int{}
+		for i := 0; i < n; i++ {
+			if errs[i] != "" {
+				return errs[i]
+			}
+			for b := 0; b+8 <= 32; b += 8 {
+				blk := string(keys[i][b : b+8])
+				if j, dup := seen[blk]; dup && j != i {
+					return fmt.Sprintf("the session key is fresh for every login (round %d: logins %d and %d running at the same time sent the same key bytes %d..%d)", r, j, i, b, b+7)
+				}
+				seen[blk] = i
+			}
+		}
+	}
+	return "ok concurrent"
+}
+
 func c09Impl(line string) string {
 	f := strings.Fields(line)
 	if len(f) < 2 {
@@ -388,6 +478,8 @@ func c09Impl(line string) string {
 		return lrImpl(f[1:])
 	case "lw":
 		return lwImpl(f[1:])
+	case "lwc":
+		return lwcImpl(f[1:])
 	}
 	return "bad-op"
 }
@@ -443,15 +535,23 @@ func init() {
 			}
 			// password equal to the user name (a clear-text occurrence that is NOT the password slot)
 			emit(Case{Line: fmt.Sprintf("lw 35 %s 1 16 %s", hx([]byte("samename")), hx([]byte("other"))), Kind: "wire-boundary"})
+			// several connections logging in at the same time (a pool warming up)
+			nc := 4
+			if tier == "thorough" {
+				nc = 40
+			}
+			for i := 0; i < nc; i++ {
+				emit(Case{Line: fmt.Sprintf("lwc %d %d", []int{16, 8, 32, 2}[i%4], 10+i), Kind: "wire-concurrent"})
+			}
 			for i := 0; i < nw; i++ {
 				pw := rndText(rng, 6+rng.Intn(40))
 				emit(Case{Line: fmt.Sprintf("lw 35 %s %d %d %s", hx(pw), rng.Intn(4), []int{1, 8, 16, 32, 54, 64}[rng.Intn(6)], hx(rndText(rng, 1+rng.Intn(20)))), Kind: "wire-random"})
 			}
 		},
 		Impl:    c09Impl,
-		NoModel: func(line string) bool { return strings.HasPrefix(line, "lw ") },
+		NoModel: func(line string) bool { return strings.HasPrefix(line, "lw ") || strings.HasPrefix(line, "lwc ") },
 		Oracle: func(line, out string) string {
-			if strings.HasPrefix(line, "lw ") {
+			if strings.HasPrefix(line, "lw ") || strings.HasPrefix(line, "lwc ") {
 				if strings.HasPrefix(out, "ok") {
 					return ""
 				}
